@@ -21,8 +21,10 @@ fn ser_into(resp: &Response, cap: usize, prefix: &[u8]) -> Option<(Result<(), ()
             }
         };
     }
-    go!(0, 1, 2, 5, 6, 7, 8, 66, 67, 68, 77, 78, 79, 256, 330, 1024, 1500, 2048)
+    go!(0, 1, 2, 5, 6, 7, 8, 66, 67, 68, 77, 78, 79, 256, 330, 1024, 1500, 2048, 7609, 65535, 65536, 65537, 65600, 66000, 70000, 131072, 131100)
 }
+/// capacities used only for the roomy-buffer cases (free space beyond 16 bits)
+pub const BIG_CAPS: [usize; 9] = [7609, 65535, 65536, 65537, 65600, 66000, 70000, 131072, 131100];
 pub const CAPS: [usize; 18] = [0, 1, 2, 5, 6, 7, 8, 66, 67, 68, 77, 78, 79, 256, 330, 1024, 1500, 2048];
 
 fn b<const N: usize>(v: &[u8]) -> Bytes<N> {
@@ -164,8 +166,17 @@ fn g_resp(src: &mut Src, obs: &mut Obs) -> CaseResult {
         obs.excluded = true;
         return Ok(());
     }
-    let cap = cands[(csel as usize) % cands.len()];
-    let prefix_len = cap - remaining;
+    let mut cap = cands[(csel as usize) % cands.len()];
+    let mut prefix_len = cap - remaining;
+    let mut remaining = remaining;
+    // roomy buffers: far more free space than any response needs, incl. sizes at which a free-space
+    // computation in 16 bits would wrap
+    if src.chance(1, 10) {
+        cap = *src.pick(&BIG_CAPS);
+        prefix_len = if src.bool() { 0 } else { src.below(600) };
+        remaining = cap - prefix_len;
+        obs.label("roomy-buffer");
+    }
     let prefix: Vec<u8> = (0..prefix_len).map(|i| 0xC0 ^ (i as u8).wrapping_mul(13)).collect();
     let fits = model.len() <= remaining;
     obs.labelf(format!("kind:{}", kname));
@@ -241,7 +252,7 @@ pub fn gens() -> Vec<Gen> {
     vec![G_RESP]
 }
 
-pub const RULE: &str = "Register (via register::Response::new with random x, y; key-handle length 0..255, certificate 0..1024, signature 0..72, boundary lengths boosted), Authenticate (presence byte, counter over the big-endian byte patterns 0,1,0xFF,0x100,0x01020304,0x80000000,0xFFFFFFFF and random, signature 0..72) and Version responses, serialised into iso7816::Data<S> for S in {0,1,2,5,6,7,8,66,67,68,77,78,79,256,330,1024,1500,2048} with certificate / signature / key-handle contents that are either random or shaped like DER elements (SEQUENCE tag with a short, 0x81 or 0x82 length that is consistent, too short or too long), pre-filled with a sentinel prefix whose length is chosen so that the REMAINING space is boundary-2 .. boundary+2 for every part boundary (header | key | length byte | handle | certificate | signature) - exhaustive over (kind, boundary, delta), proptest over contents and capacities. Oracle: model = concatenation per the statement; fits -> Ok(()) and buffer == prefix || model; does not fit -> Err(()), no panic, prefix bytes unchanged. Non-trivial: non-empty prefix or a failing capacity; distinct by (kind, message, capacity, prefix length).";
+pub const RULE: &str = "Register (via register::Response::new with random x, y; key-handle length 0..255, certificate 0..1024, signature 0..72, boundary lengths boosted), Authenticate (presence byte, counter over the big-endian byte patterns 0,1,0xFF,0x100,0x01020304,0x80000000,0xFFFFFFFF and random, signature 0..72) and Version responses, serialised into iso7816::Data<S> for S in {0,1,2,5,6,7,8,66,67,68,77,78,79,256,330,1024,1500,2048} with certificate / signature / key-handle contents that are either random or shaped like DER elements (SEQUENCE tag with a short, 0x81 or 0x82 length that is consistent, too short or too long), pre-filled with a sentinel prefix whose length is chosen so that the REMAINING space is boundary-2 .. boundary+2 for every part boundary (header | key | length byte | handle | certificate | signature) - exhaustive over (kind, boundary, delta), proptest over contents and capacities. One case in ten uses a roomy buffer instead (capacity 7609, 65535, 65536, 65537, 65600, 66000, 70000, 131072 or 131100 with a prefix of 0..600 bytes). Oracle: model = concatenation per the statement; fits -> Ok(()) and buffer == prefix || model; does not fit -> Err(()), no panic, prefix bytes unchanged. Non-trivial: non-empty prefix or a failing capacity; distinct by (kind, message, capacity, prefix length).";
 pub const ASSUMPTIONS: &[&str] = &["bytes after the prefix are unspecified when serialisation fails and are not asserted"];
 
 pub fn run(ctx: &mut Ctx) {
